@@ -286,9 +286,12 @@ func (c *Cluster) handleFetch(creq *clientReq, w *watchFetch) (kmsg.Response, er
 	}()
 
 	var batchesAdded int
+	var respFull bool // the response hit MaxBytes: finish the current partition, then stop
 	nbytes = 0
-full:
 	for _, fp := range toFetch {
+		if respFull {
+			break
+		}
 		if !c.allowedACL(creq, fp.topic, kmsg.ACLResourceTypeTopic, kmsg.ACLOperationRead) {
 			donep(fp.topic, fp.topicID, fp.partition, kerr.TopicAuthorizationFailed.Code)
 			continue
@@ -349,7 +352,11 @@ full:
 					break segments
 				}
 				if nbytes += int(m.nbytes); nbytes > int(req.MaxBytes) && batchesAdded > 0 {
-					break full
+					// Stop adding data, but still fall through to the
+					// aborted-transaction lookup below: this partition may
+					// already carry batches of an aborted transaction.
+					respFull = true
+					break segments
 				}
 				if pbytes += int(m.nbytes); pbytes > int(fp.maxBytes) && batchesAdded > 0 {
 					break segments
